@@ -7,7 +7,7 @@ from vlib import strat as S, oracles as O
 ID = "C18"
 SWITCH_OFF = 6        # every 6th case runs with xfab.CHECKS switched off (results must not depend on it)
 RULE = ("Hypothesis: reduced-like cells (a<=b<=c within a factor 3, angles 75..105) and the conforming families (cubic, "
-        "tetragonal, orthorhombic, hexagonal, rhombohedral, monoclinic), optionally transformed by a unimodular integer matrix "
+        "tetragonal, orthorhombic, hexagonal, rhombohedral, monoclinic; needle / plate lattices with one edge 20-400x the others), optionally transformed by a unimodular integer matrix "
         "with entries in {-1,0,1} (6960 matrices, drawn by index); both modules. Cases whose true successive minima (searched "
         "in [-6,6]^3) do not lie within |u|,|v|,|w| <= 2 of the input basis are outside the stated domain and skipped (counted). "
         "Oracle: independent successive-minima search in the code's range with all tie choices enumerated; the output metric "
